@@ -31,6 +31,14 @@ theorem rem_iff (e : TyEnv) (A B : QTy) (m : Bool) :
     accepts e .rem A B m = true ↔ (A = B ∧ e.has A.kind mRem = true) := by
   simp [accepts]
 
+/-- **saturating arithmetic and `Sum`** are additive arithmetic under another name: same type and the
+    kind's `Saturating` / `Add` marker (so two temperature points cannot be combined this way either) -/
+theorem sat_iff (e : TyEnv) (A B : QTy) (m : Bool) :
+    (accepts e .satadd A B m = true ↔ (A = B ∧ e.has A.kind mSaturating = true)) ∧
+    (accepts e .satsub A B m = true ↔ (A = B ∧ e.has A.kind mSaturating = true)) ∧
+    (accepts e .sum A B m = true ↔ (A = B ∧ e.has A.kind mAdd = true)) := by
+  simp [accepts]
+
 /-- **comparison, ordering, binding, hypot, atan2**: accepted iff the two types are identical -/
 theorem cmp_iff (e : TyEnv) (f : Form) (hf : f ∈ [.eq, .lt, .pcmp, .ordmax, .letbind, .hypot, .atan2]) (A B : QTy) (m : Bool) :
     accepts e f A B m = true ↔ A = B := by
@@ -82,7 +90,9 @@ theorem temperature_arithmetic :
     accepts siEnv .add siEnv.tt siEnv.ti true = true ∧ accepts siEnv .sub siEnv.tt siEnv.ti true = true ∧
     accepts siEnv .add siEnv.ti siEnv.tt true = true ∧ accepts siEnv .sub siEnv.ti siEnv.tt true = false ∧
     accepts siEnv .adda siEnv.tt siEnv.ti true = true ∧ accepts siEnv .adda siEnv.ti siEnv.tt true = false ∧
-    accepts siEnv .rem siEnv.tt siEnv.tt true = true ∧ accepts siEnv .eq siEnv.tt siEnv.tt true = true := by
+    accepts siEnv .rem siEnv.tt siEnv.tt true = true ∧ accepts siEnv .eq siEnv.tt siEnv.tt true = true ∧
+    accepts siEnv .satadd siEnv.tt siEnv.tt true = false ∧ accepts siEnv .satsub siEnv.tt siEnv.tt true = false ∧
+    accepts siEnv .sum siEnv.tt siEnv.tt true = false ∧ accepts siEnv .satadd siEnv.ti siEnv.ti true = true := by
   decide +kernel
 
 /-- the temperature kind is the only kind without `Add`; every other kind has all twelve markers -/
@@ -147,14 +157,18 @@ theorem src_kind_bounds (te : TyEnv) (env : TyP → QTy) :
     system_SubAssign_for_Quantity_sub_assign_noauto.holds te env = te.has (env .D).kind mSubAssign ∧
     system_RemAssign_Quantity_for_Quantity_rem_assign_auto.holds te env = te.has (env .D).kind mRemAssign ∧
     system_RemAssign_for_Quantity_rem_assign_noauto.holds te env = te.has (env .D).kind mRemAssign ∧
-    system_Neg_for_Quantity_neg.holds te env = te.has (env .D).kind mNeg := by
+    system_Neg_for_Quantity_neg.holds te env = te.has (env .D).kind mNeg ∧
+    system_Saturating_for_Quantity_saturating_add.holds te env = te.has (env .D).kind mSaturating ∧
+    system_Saturating_for_Quantity_saturating_sub.holds te env = te.has (env .D).kind mSaturating ∧
+    system_Sum_for_Quantity_sum.holds te env = te.has (env .D).kind mAdd := by
   simp [Sig.holds, system_Add_Quantity_for_Quantity_add_auto, system_Add_for_Quantity_add_noauto,
     system_Sub_Quantity_for_Quantity_sub_auto, system_Sub_for_Quantity_sub_noauto,
     system_Rem_Quantity_for_Quantity_rem_auto, system_Rem_for_Quantity_rem_noauto,
     system_AddAssign_Quantity_for_Quantity_add_assign_auto, system_AddAssign_for_Quantity_add_assign_noauto,
     system_SubAssign_Quantity_for_Quantity_sub_assign_auto, system_SubAssign_for_Quantity_sub_assign_noauto,
     system_RemAssign_Quantity_for_Quantity_rem_assign_auto, system_RemAssign_for_Quantity_rem_assign_noauto,
-    system_Neg_for_Quantity_neg, mAdd, mSub, mRem, mAddAssign, mSubAssign, mRemAssign, mNeg]
+    system_Neg_for_Quantity_neg, system_Saturating_for_Quantity_saturating_add, system_Saturating_for_Quantity_saturating_sub,
+    system_Sum_for_Quantity_sum, mAdd, mSub, mRem, mAddAssign, mSubAssign, mRemAssign, mNeg, mSaturating]
 
 /-- comparisons, `hypot`, `max`/`min`, `atan2` carry no kind bound at all: identical types suffice -/
 theorem src_comparisons_unbounded (te : TyEnv) (env : TyP → QTy) :
